@@ -57,6 +57,10 @@ def gen_scenarios(c, nref, lastwait, nspawn):
         add("chain2", {"phase": "running:1"}, "late", "GHUP")
         k += 1
         scs.append(cases.sc_frozen_orphan(f"s{k:04d}", nspawn))
+        k += 1
+        scs.append(cases.sc_linger(f"s{k:04d}", "KILL"))
+        k += 1
+        scs.append(cases.sc_silent_eoj(f"s{k:04d}", "KILL"))
         for sig, latch in (("TERM", "late"), ("KILL", "early")):
             k += 1
             scs.append(cases.sc_token_restart(f"s{k:04d}", sig, "running:1", latch))
@@ -91,6 +95,11 @@ def gen_scenarios(c, nref, lastwait, nspawn):
                          ("indep2", "running:2")):
             for sig in ("GINT", "GHUP", "GTERM"):
                 add(kind, {"phase": ph}, rng.choice(["late", "early"]), sig)
+        for sig in SIGNALS:
+            k += 1
+            scs.append(cases.sc_linger(f"s{k:04d}", sig, linger=rng.choice([3.0, 4.0, 5.0])))
+            k += 1
+            scs.append(cases.sc_silent_eoj(f"s{k:04d}", sig, silence=rng.choice([3.0, 4.0])))
         for i in range(12):
             k += 1
             scs.append(cases.sc_frozen_orphan(f"s{k:04d}", nspawn + (i % 3), SIGNALS[i % 2], wait=rng.choice([1.5, 2.5, 4.0])))
@@ -157,6 +166,17 @@ def oracle(c, sc, out):
             verdict = "violation"
         elif set(begun) - set(ended_ok):
             c.violation("C11:job-process-lost", f"a process of job {t} began its body and never ended it successfully", data)
+            verdict = "violation"
+    if out.get("lock_changes"):
+        c.violation("C11:lock-file-replaced", f"the file that carries the run lock was removed or replaced: {out['lock_changes']}", data)
+        verdict = "violation"
+    # a dependent may only begin once the PROCESS of its dependency is gone (it logs "late" at its very end)
+    if sc["kind"] == "chain2":
+        late = [r["i"] for r in rows if r["who"] == "P" and r["kind"] == "late" and r["tag"] == tags[0]]
+        b2 = [r["i"] for r in rows if r["who"] == "P" and r["kind"] == "begin" and r["tag"] == tags[1]]
+        if meta.get("linger") and b2 and (not late or min(b2) < max(late)):
+            c.violation("C11:dependent-before-dependency-process-ended", "the dependent job began while the process of its "
+                        "dependency (success marker written, pid file present) was still working: it was not adopted", data)
             verdict = "violation"
     if any(r["who"] == "P" and r["kind"] == "early" for r in rows):
         c.violation("C11:dependent-before-dependency", "the dependent job began before its dependency had ended", data)
@@ -298,6 +318,10 @@ def run(c: Check):
         c.count(f"config:{m['kind']}")
         if m.get("frozen_orphan"):
             c.count("kill:frozen-orphan")
+        if m.get("linger"):
+            c.count("kill:dependency-process-lingering")
+        if m.get("silent_eoj"):
+            c.count("kill:end-of-job-report-hanging")
         if fam == "restart":
             c.count("signal:" + m["sig"])
             c.count("latch:" + m["latch"])
